@@ -336,4 +336,111 @@ theorem numEncode_eq_ref (z : Int) : Spec.Script.numEncode z = Spec.Script.Ref.s
     · simp only [hneg, if_false, decide_false]
       rw [Nat.mod_eq_of_lt htop_lt]
 
+/-- the two `_bignum.bn2vch` models (C08 carries the `struct.pack(">I", size)` of the MPI route, C06
+    argues it away): they agree exactly on integers whose encoding is shorter than 2³² bytes -/
+theorem bn2vch_models (z : Int) :
+    Model.ScriptEval.bn2vch z = .ok (Spec.Script.numEncode z) ∧
+    Model.Script.bn2vch z =
+      if (Spec.Script.numEncode z).length < 2 ^ 32 then .ok (Spec.Script.numEncode z) else .error structError := by
+  refine ⟨?_, bn2vch_eq z⟩
+  rw [Model.ScriptEval.bn2vch_eq, numEncode_eq_ref]
+
+theorem vch2bn_models (b : Bytes) :
+    (b.length < 2 ^ 32 →
+      Model.ScriptEval.vch2bn b = .ok (Spec.Script.numDecode b) ∧
+      Model.Script.vch2bn b = .ok (some (Spec.Script.numDecode b))) ∧
+    (¬ b.length < 2 ^ 32 →
+      Model.ScriptEval.vch2bn b = .error (.py "error") ∧ Model.Script.vch2bn b = .error structError) := by
+  constructor
+  · intro h
+    refine ⟨?_, by rw [vch2bn_eq, if_pos h]⟩
+    rw [Model.ScriptEval.vch2bn_eq b h, numDecode_eq_ref]
+  · intro h
+    refine ⟨?_, by rw [vch2bn_eq, if_neg h]⟩
+    unfold Model.ScriptEval.vch2bn
+    have : b.length ≥ 2 ^ 32 := by omega
+    rw [if_pos this]
+
+/-! ### 7. predicates: `is_push_only`, `is_p2sh`, `is_witness_scriptpubkey`, push encoding -/
+
+theorem isPushOnly_models (s : Bytes) : Model.Script.isPushOnly s = Model.ScriptEval.isPushOnly s := by
+  unfold Model.Script.isPushOnly Model.ScriptEval.isPushOnly
+  dsimp only
+  rw [pushOnlyLoop_eq]
+  generalize (Model.Script.rawIter s).1 = ops
+  generalize (Model.Script.rawIter s).2 = e
+  by_cases h : ops.any (fun o => decide (o.opcode > 0x60)) = true
+  · have : ops.all (fun o => decide (o.opcode ≤ 0x60)) = false := by
+      rw [List.all_eq_false]
+      obtain ⟨o, ho, hc⟩ := List.any_eq_true.mp h
+      exact ⟨o, ho, by simp at hc ⊢; omega⟩
+    simp [h, this]
+  · have h' : ops.any (fun o => decide (o.opcode > 0x60)) = false := by simpa using h
+    have : ops.all (fun o => decide (o.opcode ≤ 0x60)) = true := by
+      rw [List.all_eq_true]
+      intro o ho
+      have := List.any_eq_false.mp h' o ho
+      simp at this ⊢; omega
+    simp [h', this]
+
+theorem isPushOnly_specs (s : Bytes) : Spec.Script.isPushOnly s = Spec.Script.Ref.isPushOnly s := by
+  rw [← C08.pred_eq_spec_push_only, isPushOnly_models, (C06.predicates_equiv s).1]
+
+theorem isP2sh_all (s : Bytes) :
+    Model.Script.isP2sh s = Model.ScriptEval.isP2sh s ∧ Model.Addr.isP2sh s = Model.Script.isP2sh s ∧
+    Spec.Script.isPayToScriptHash s = Spec.Script.Ref.isPayToScriptHash s := by
+  refine ⟨rfl, ?_, ?_⟩
+  · unfold Model.Addr.isP2sh Model.Script.isP2sh
+    rw [Bool.eq_iff_iff]; simp
+  · rw [← C08.pred_eq_spec_p2sh, ← (C06.predicates_equiv s).2]; rfl
+
+theorem isWitnessProgram_specs (s : Bytes) :
+    (Spec.Script.isWitnessProgram s).isSome = Spec.Sighash.isWitnessProgram s := by
+  unfold Spec.Script.isWitnessProgram Spec.Sighash.isWitnessProgram
+  match s with
+  | [] => simp
+  | [_] => simp
+  | v :: l :: r =>
+    rw [Bool.eq_iff_iff]
+    simp only [List.length_cons, Bool.and_eq_true, Bool.or_eq_true, decide_eq_true_eq]
+    split
+    · simp only [Option.isSome_none, Bool.false_eq_true, false_iff]; omega
+    · split
+      · simp only [Option.isSome_none, Bool.false_eq_true, false_iff]; omega
+      · split
+        · simp only [Option.isSome_some, true_iff]; omega
+        · simp only [Option.isSome_none, Bool.false_eq_true, false_iff]; omega
+
+theorem isWitnessScriptPubKey_models (s : Bytes) :
+    Model.Sighash.isWitnessScriptPubKey s = Model.Script.isWitnessScriptPubKey s := by
+  rw [C03.isWitnessScriptPubKey_spec, C08.pred_eq_spec_witness_program, isWitnessProgram_specs]
+
+theorem pushEnc_all (d : Bytes) :
+    Model.Addr.pushEnc d = Model.Script.encodeOpPushdata d ∧
+    (d.length < 2 ^ 32 →
+      Model.Script.encodeOpPushdata d = .ok (Spec.Script.Ref.pushEnc d) ∧
+      Model.ScriptEval.encodeOpPushdata d = .ok (Spec.Script.Ref.pushEnc d) ∧
+      Spec.Script.pushEncode d = some (Spec.Script.Ref.pushEnc d)) := by
+  refine ⟨rfl, ?_⟩
+  intro h
+  unfold Model.Script.encodeOpPushdata Model.ScriptEval.encodeOpPushdata Spec.Script.pushEncode
+    Spec.Script.Ref.pushEnc
+  by_cases h1 : d.length < 0x4c
+  · simp [h1]
+  · by_cases h2 : d.length ≤ 0xff
+    · simp [h1, h2]
+    · by_cases h3 : d.length ≤ 0xffff
+      · simp [h1, h2, h3]
+      · have h4 : d.length ≤ 0xffffffff := by omega
+        simp [h1, h2, h3, h4]
+
+theorem nbytes_eq_byteLen (n : Nat) : nbytes n = Spec.Script.byteLen n := by
+  induction n using Nat.strongRecOn with
+  | _ n ih =>
+    rw [nbytes, Spec.Script.byteLen]
+    by_cases h : n = 0
+    · simp [h]
+    · simp only [h, dite_false]
+      rw [ih (n / 256) (by omega)]
+
 end BtcVerif.CoherenceProofs
